@@ -1830,6 +1830,8 @@ func (h *RequestHeader) setSpecialHeader(key, value []byte) bool {
 			if contentLength, err := ParseContentLength(value); err == nil {
 				h.contentLength = contentLength
 				h.contentLengthBytes = append(h.contentLengthBytes[:0], value...)
+				// a declared length replaces chunked framing, as in SetContentLength
+				h.h = delAllArgsBytes(h.h, bytestr.StrTransferEncoding)
 			}
 			return true
 		} else if utils.CaseInsensitiveCompare(bytestr.StrConnection, key) {
